@@ -95,6 +95,21 @@ func (e *Engine) invoke(f *frame, x *ssa.Call, recv Val, m *types.Func, args []V
 		alts = append(alts, X.Eq(recv.C[0], X.Const(uint64(e.tagOf(c.t)), 32)))
 	}
 	e.assume(X.Or(alts...))
+	if k, ok := e.knownConst(recv.C[0]); ok {
+		// the dynamic type is pinned by an assumption in force (a precondition such as
+		// "the writer is the model"): only that implementation is explored
+		for i, c := range cands {
+			if uint64(e.tagOf(c.t)) != k {
+				alts[i] = X.False
+			}
+		}
+	}
+	if os.Getenv("GOVC_DEBUG") != "" {
+		if _, ok := e.knownConst(recv.C[0]); !ok {
+			txt := e.X.Script(append([]*smt.Term{X.Eq(recv.C[0], X.Const(77, 32))}, e.Assumptions...), nil, "ALL", false).Text
+			os.WriteFile("/tmp/invoke_dbg.smt2", []byte(txt), 0o644)
+		}
+	}
 	rt := resultType(x.Call.Signature())
 	var res Val
 	have := false
@@ -134,6 +149,9 @@ func (e *Engine) invoke(f *frame, x *ssa.Call, recv Val, m *types.Func, args []V
 			e.pc = savedPC
 			e.oblige("assert", "dynamic type is not "+shortType(c.t)+" (implementation outside the verified subset)", X.Not(cond), x.Pos())
 			continue
+		}
+		if os.Getenv("GOVC_DEBUG") != "" {
+			fmt.Fprintf(os.Stderr, "invoke %s.%s: candidate %s -> tup=%d comps=%d\n", recv.T, m.Name(), c.t, len(r.Tup), len(r.C))
 		}
 		conds = append([]*smt.Term{cond}, conds...)
 		sts = append([]*State{f.st}, sts...)
@@ -247,3 +265,120 @@ func (e *Engine) stdModel(f *frame, fn *ssa.Function, args []Val, pos token.Pos)
 }
 
 var _ = fmt.Sprint
+
+// knownConst: an unconditional assumption in force pins t to a constant. It recognises the shapes
+// preconditions produce: t == k, conjunctions, and "x.(T) != nil" (not (ite(t == k, r, 0) == 0)).
+func (e *Engine) knownConst(t *smt.Term) (uint64, bool) {
+	var found *smt.Term
+	// the conjuncts of the current path condition: an assumption "pc' ==> f" is in force when pc'
+	// is made of them
+	pcc := map[*smt.Term]bool{}
+	var flat func(a *smt.Term)
+	flat = func(a *smt.Term) {
+		if a.Op == "and" {
+			for _, x := range a.Args {
+				flat(x)
+			}
+			return
+		}
+		pcc[a] = true
+	}
+	flat(e.pc)
+	refuted := func(x *smt.Term) bool {
+		if x.Op != "not" {
+			return false
+		}
+		c := x.Args[0]
+		if pcc[c] {
+			return true
+		}
+		if c.Op == "and" {
+			for _, y := range c.Args {
+				if !pcc[y] {
+					return false
+				}
+			}
+			return true
+		}
+		return false
+	}
+	truths := map[*smt.Term]bool{}
+	var pos, neg func(a *smt.Term, depth int)
+	pos = func(a *smt.Term, depth int) {
+		if found != nil || depth > 12 {
+			return
+		}
+		truths[a] = true
+		switch a.Op {
+		case "or":
+			var rest []*smt.Term
+			for _, x := range a.Args {
+				if !refuted(x) {
+					rest = append(rest, x)
+				}
+			}
+			if len(rest) == 1 {
+				pos(rest[0], depth+1)
+			}
+		case "and":
+			for _, x := range a.Args {
+				pos(x, depth+1)
+			}
+		case "not":
+			neg(a.Args[0], depth+1)
+		case "=":
+			if a.Args[0] == t && a.Args[1].IsConst() {
+				found = a.Args[1]
+			} else if a.Args[1] == t && a.Args[0].IsConst() {
+				found = a.Args[0]
+			}
+		case "ite":
+			// a boolean ite(c, x, false) holds only if c and x do
+			if a.Args[2].IsFalse() {
+				pos(a.Args[0], depth+1)
+				pos(a.Args[1], depth+1)
+			}
+		}
+	}
+	neg = func(a *smt.Term, depth int) {
+		if found != nil || depth > 12 {
+			return
+		}
+		switch a.Op {
+		case "or":
+			for _, x := range a.Args {
+				neg(x, depth+1)
+			}
+		case "and":
+			// not (a and b) with a known: not b
+			var rest []*smt.Term
+			for _, x := range a.Args {
+				if !truths[x] && !pcc[x] {
+					rest = append(rest, x)
+				}
+			}
+			if len(rest) == 1 {
+				neg(rest[0], depth+1)
+			}
+		case "not":
+			pos(a.Args[0], depth+1)
+		case "=":
+			// not (ite(c, x, k) == k)  implies c
+			for i := 0; i < 2; i++ {
+				it, k := a.Args[i], a.Args[1-i]
+				if it.Op == "ite" && k.IsConst() && it.Args[2] == k {
+					pos(it.Args[0], depth+1)
+				}
+			}
+		}
+	}
+	for pass := 0; pass < 2; pass++ {
+		for _, a := range e.Assumptions {
+			pos(a, 0)
+			if found != nil {
+				return found.V, true
+			}
+		}
+	}
+	return 0, false
+}
